@@ -94,6 +94,10 @@ def do_replay(path, quiet=False):
         print("REPLAY-OK: oracle satisfied on concrete execution (no violation reproduced)")
         return EXIT_OK
     print("REPLAY-FAIL: signature=%s" % failure["signature"])
+    exp = body.get("expected_signature")
+    if exp and exp != failure["signature"]:
+        print("REPLAY-MISMATCH: symbolic run reported %s (symbolic-execution artefact or nondeterministic harness)" % exp)
+        return EXIT_HARNESS
     if failure.get("detail"):
         print("   detail: %s" % failure["detail"])
     real = None
